@@ -155,6 +155,25 @@ def builder_docs():
         entry.set_single_succ_outputs(*entry.inputs())
     cfg.branch_exit(entry[0])
     out.append(("cfg", "SerialHugr", cfg.hugr))
+    # higher-order / alias / exotic type arguments: AliasDecl, CallIndirect, LoadFunction, Alias, Function value,
+    # Sequence / String / Extensions / Variable type arguments
+    m3 = Module()
+    idf = m3.define_function("id", [B], [B])
+    idf.set_outputs(*idf.inputs())
+    m3.add_alias_decl("ADecl", tys.TypeBound.Copyable)
+    odd = tys.Opaque("weird", tys.TypeBound.Any,
+                     [tys.SequenceArg([tys.StringArg("s"), tys.BoundedNatArg(3)]), tys.ExtensionsArg(["prelude"]),
+                      tys.VariableArg(0, tys.StringParam()), tys.TypeTypeArg(tys.Alias("ADecl", tys.TypeBound.Copyable))],
+                     "my.ext")
+    hm = m3.define_function("hm", [B, odd], [B, odd])
+    bb, oo = hm.inputs()
+    lf = hm.load_function(idf)
+    ci = hm.add_op(ops.CallIndirect(), lf, bb)
+    inner_f = Dfg(B)
+    inner_f.set_outputs(*inner_f.inputs())
+    hm.load(val.Function(inner_f.hugr))
+    hm.set_outputs(ci, oo)
+    out.append(("higher_order", "SerialHugr", m3.hugr))
     m2 = Module()
     f2 = m2.define_function("main", [B])
     f2.set_outputs(*f2.inputs())
@@ -264,6 +283,10 @@ def all_mutations(doc):
                         muts.append(("tag-other", False, path, lambda p=path, t=t: setp(doc, p, t)))
         if isinstance(v, dict):
             muts.append(("extra", False, path, lambda p=path: setp(doc, p + ("zz_extra",), 1)))
+        if isinstance(v, list) and v:
+            # tuples (prefixItems + minItems/maxItems) vs lists: one element more / one less
+            muts.append(("arity", False, path, lambda p=path, v=v: setp(doc, p, v + [v[-1]])))
+            muts.append(("arity", False, path, lambda p=path, v=v: setp(doc, p, v[:-1])))
         if isinstance(v, list) and v and all(isinstance(x, str) for x in v):
             # uniqueItems vs set[...]: pydantic deduplicates, the schema demands distinct items (named, one-way)
             muts.append(("dup-item", True, path, lambda p=path, v=v: setp(doc, p, v + [v[0]])))
@@ -385,7 +408,12 @@ class C17(fw.Prop):
 
     # -- cases
     def bases(self, tier):
-        b = builder_docs()
+        try:
+            b = builder_docs()
+            self.builder_error = None
+        except Exception as e:  # noqa: BLE001  (e.g. hugr.std cannot load its own JSON any more)
+            b = []
+            self.builder_error = "%s: %s" % (type(e).__name__, str(e)[:600])
         f = file_docs(tier)
         return b, f
 
@@ -419,7 +447,7 @@ class C17(fw.Prop):
         for name, entry, doc in testing:
             cases.append(mk_case("testing", name, entry, doc))
         # single-point mutations
-        per_doc = 9 if quick else 120
+        per_doc = 10 if quick else 120
         pool = [("hugr", b) for b in builder] + [("hugr", f) for f in files if len(json.dumps(f[2])) < (2500 if quick else 9000)]
         pool += [("testing", t) for t in testing] + [("testing", b) for b in builder[:3]]
         for fam, (name, entry, doc) in pool:
@@ -429,7 +457,7 @@ class C17(fw.Prop):
                 by.setdefault(m[0], []).append(m)
             chosen = []
             classes = sorted(by)
-            quota = {"missing": 2, "tag-unknown": 1, "tag-other": 1, "extra": 1, "wrongtype": 2, "coerce": 1, "dup-item": 1}
+            quota = {"missing": 2, "tag-unknown": 1, "tag-other": 1, "extra": 1, "wrongtype": 2, "coerce": 1, "dup-item": 1, "arity": 1}
             scale = 1 if quick else 8
             for c in classes:
                 ms = by[c]
@@ -464,23 +492,69 @@ class C17(fw.Prop):
             direction = "same" if s == p else ("pydantic-accepts" if p else "schema-accepts")
         return "%s:%s:%s" % (case["mut"], pattern_of(case["entry"], case["path"]), direction)
 
-    def shrink(self, case):
+    def py_mon_fails(self, case, obs):
+        """Python-side prediction of `mon` failing (python-jsonschema standing in for the Coq validator)."""
+        for s_, p_ in ((obs["js_strict"], obs["pyd_strict"]), (obs["js_lax"], obs["pyd_lax"]), (obs["js_lax"], obs["pyd_default"])):
+            if (s_ and not p_) or (not case["one_way"] and s_ != p_):
+                return True
+        return False
+
+    def shrink_candidates(self, case, with_path=False):
         doc = case["doc"]
-        if len(json.dumps(doc)) > 30000:
-            return
         protected = tuple(case["path"])
+        cands = []
         for path, v in find_all(doc, lambda x: True):
             if not path or path == protected[:len(path)]:
                 continue
             parent = getp(doc, path[:-1])
             if isinstance(parent, list) and isinstance(path[-1], int):
-                # removing an element shifts later indices: only behind the protected path
-                if len(protected) >= len(path) and protected[:len(path) - 1] == path[:-1] and isinstance(protected[len(path) - 1], int) \
-                        and protected[len(path) - 1] > path[-1]:
+                # removing an element shifts later indices: never in front of the protected path
+                if len(protected) >= len(path) and protected[:len(path) - 1] == path[:-1] \
+                        and isinstance(protected[len(path) - 1], int) and protected[len(path) - 1] > path[-1]:
                     continue
+            cands.append((len(json.dumps(v)), path))
+        cands.sort(key=lambda x: -x[0])
+        for _, path in cands:
             c = dict(case)
             c["doc"] = delp(doc, path)
-            yield c
+            yield (c, path) if with_path else c
+
+    def shrink(self, case):
+        """Smaller documents (one subtree deleted at a time, biggest first).  When the disagreement between the
+        published schema and pydantic is visible to the worker processes, the greedy minimisation runs here and
+        Coq only confirms the result; deletions that would merely create a KNOWN finding are not taken."""
+        if len(json.dumps(case["doc"])) > 60000:
+            return
+        try:
+            o0 = self.observe(case, None)
+            failing0 = self.py_mon_fails(case, o0)
+            sig = self.signature(case, o0, None)
+        except Exception:  # noqa: BLE001
+            failing0 = False
+        if not failing0:
+            for n, c in enumerate(self.shrink_candidates(case)):
+                if n >= 24:
+                    break
+                yield c
+            return
+        known, _ = fw.load_known(self.id)
+        cur, budget, progress = case, 700, True
+        while progress and budget > 0:
+            progress = False
+            for c, path in self.shrink_candidates(cur, with_path=True):
+                budget -= 1
+                if budget <= 0:
+                    break
+                o = self.observe(c, None)
+                if not (self.py_mon_fails(c, o) and self.signature(c, o, None) == sig):
+                    continue
+                as_missing = dict(c, mut="missing", path=list(path))
+                if isinstance(path[-1], str) and self.signature(as_missing, o, None) in known:
+                    continue
+                cur, progress = c, True
+                break
+        if cur is not case:
+            yield cur
 
     def neighbours(self, case, rng):
         ms = all_mutations(case["doc"])
@@ -510,47 +584,110 @@ class C17(fw.Prop):
                         "published file names do not carry one version string",
                         {"signature": "version-mismatch", "versions": v, "published_files": info["published_files"],
                          "generated_files": info["generated_files"], "theorem": "version_strings_agree"}))
+        if getattr(self, "builder_error", None):
+            out.append(("builder-programs-failed", "the builder programs that produce the HUGR/package documents raise: "
+                        + self.builder_error, {"signature": "builder-programs-failed", "error": self.builder_error}))
+        drift = {}
         for pre in tr.PREFIXES:
             diffs = schema_diff(norm_py(info["published"][pre]), norm_py(info["generated"][pre]))
-            if not diffs:
-                continue
+            if diffs:
+                drift[pre] = diffs
+        searches = {}
+        for pre, diffs in drift.items():
             fam = "testing" if pre.startswith("testing") else "hugr"
+            mode = "strict" if pre.endswith("strict") else "lax"
+            if fam not in searches:
+                both = [d for q, ds in drift.items() if q.startswith("testing") == (fam == "testing") for d in ds]
+                # differences confined to annotations cannot change any verdict (the validator never reads them)
+                annot = all(any(("/" + a) in d.split(" (")[0].rsplit("/properties/", 1)[-1] or d.split(" (")[0].endswith("/" + a)
+                                for a in ("default", "title", "description", "discriminator")) for d in both)
+                searches[fam] = {} if annot else self.search_disagreement(fam, both, tier, info)
             thm = "published_%s_eq_generated_%s" % (tr.CONST[pre], tr.CONST[pre])
-            found = self.search_disagreement(fam, diffs, tier)
             detail = {"signature": "schema-drift:" + pre, "theorem": thm, "file": pre, "differing_paths": diffs[:20]}
-            if found:
-                detail["failing_input"] = found
+            if searches[fam].get(mode):
+                detail["failing_input"] = searches[fam][mode]
             out.append(("schema-drift", "published %s_<v>.json differs from the schema the models define now at %s"
                         % (pre, "; ".join(diffs[:4])), detail))
         ctx.stats["schema_constants"] = {"bytes": os.path.getsize(os.path.join(fw.COQ, "gen", "Schemas.v"))}
         return out
 
-    def search_disagreement(self, fam, diffs, tier):
-        """A document on which the published file (python-jsonschema) and the models of the checkout disagree,
-        outside the named one-way classes; documents touching the differing definitions first."""
+    def search_disagreement(self, fam, diffs, tier, info):
+        """Documents on which a published file (python-jsonschema) and the models of the checkout disagree, outside
+        the named one-way classes and the known findings; objects that instantiate a differing definition first,
+        small documents first; the hit is shrunk.  Returns {mode: description}."""
         defs = {d.split("/")[2] for d in diffs if d.startswith("$/$defs/") and len(d.split("/")) > 2}
+        shapes = []
+        for pre in tr.PREFIXES:
+            for src in ("published", "generated"):
+                for dn in defs:
+                    ds = info[src][pre]["$defs"].get(dn)
+                    if isinstance(ds, dict) and isinstance(ds.get("properties"), dict):
+                        consts = {k: v["const"] for k, v in ds["properties"].items() if isinstance(v, dict) and "const" in v}
+                        shapes.append((consts, set(ds["properties"])))
+
+        def instantiates(o):
+            if not isinstance(o, dict):
+                return False
+            for consts, props in shapes:
+                if consts and all(o.get(k) == v for k, v in consts.items()):
+                    return True
+                if not consts and len(set(o) & props) >= max(1, min(2, len(props))) and len(set(o) - props) <= 1:
+                    return True
+            return False
+
         builder, files = self.bases(tier)
         bases = builder + [f for f in files if len(json.dumps(f[2])) < 9000] + testing_docs(builder + files)
-        budget = 4000
         cands = []
         for name, entry, doc in bases:
             if entry == "TestingHugr" and fam != "testing":
                 continue
-            cands.append((0, mk_case(fam, name, entry, doc)))
+            size = len(json.dumps(doc))
+            cands.append((1, size, len(cands), mk_case(fam, name, entry, doc)))
             for cls, ow, path, th in all_mutations(doc):
                 if ow:
                     continue
-                near = any(str(p) in json.dumps(sorted(defs)) for p in path[-2:]) or cls in ("missing", "extra")
-                cands.append((1 if near else 2, mk_case(fam, name, entry, th(), cls, ow, path)))
-        cands.sort(key=lambda x: x[0])
+                near = instantiates(getp(doc, path[:-1])) or instantiates(getp(doc, path))
+                cands.append((0 if near else 2, size, len(cands), (name, entry, cls, ow, path, th)))
+        cands.sort(key=lambda x: x[:3])
         known, _ = fw.load_known(self.id)
-        for _, c in cands[:budget]:
+        found = {}
+
+        def disagrees(c, mode):
             o = verdicts(c["fam"], c["entry"], c["doc"])
+            if o["js_" + mode] != o["pyd_" + mode] and self.signature(c, o, None) not in known:
+                return o
+            return None
+
+        for _, _, _, c in cands[:1200]:
+            if isinstance(c, tuple):
+                name, entry, cls, ow, path, th = c
+                c = mk_case(fam, name, entry, th(), cls, ow, path)
             for mode in ("strict", "lax"):
-                if o["js_" + mode] != o["pyd_" + mode] and self.signature(c, o, None) not in known:
-                    return {"case": c, "published_schema_accepts": o["js_" + mode], "pydantic_accepts": o["pyd_" + mode],
-                            "configuration": mode, "pydantic_errors": o["errors"][mode]}
-        return None
+                if mode in found:
+                    continue
+                o = disagrees(c, mode)
+                if o is None:
+                    continue
+                cur, steps = c, 0
+                progress = True
+                while progress and steps < 300:
+                    progress = False
+                    for smaller, q in self.shrink_candidates(cur, with_path=True):
+                        steps += 1
+                        o2 = disagrees(smaller, mode)
+                        if o2 is not None and isinstance(q[-1], str) and \
+                                self.signature(dict(smaller, mut="missing", path=list(q)), o2, None) in known:
+                            continue
+                        if o2 is not None and (o2["js_" + mode], o2["pyd_" + mode]) == (o["js_" + mode], o["pyd_" + mode]):
+                            cur, o, progress = smaller, o2, True
+                            break
+                        if steps >= 300:
+                            break
+                found[mode] = {"case": cur, "published_schema_accepts": o["js_" + mode], "pydantic_accepts": o["pyd_" + mode],
+                               "configuration": mode, "pydantic_errors": o["errors"][mode]}
+            if len(found) == 2:
+                break
+        return found
 
 
 PROP = C17()
